@@ -9,6 +9,7 @@ from __future__ import annotations
 import ast
 import copy
 import itertools
+import builtins as _builtins
 import re as _re
 import typing as T
 
@@ -62,7 +63,7 @@ def eff(st: ast.AST) -> T.Optional[str]:
     """Effect text of a simple statement (assignments, calls, yields); docstrings and the like are no effects."""
     if isinstance(st, (ast.Assign, ast.AnnAssign, ast.AugAssign)):
         return norm(st)
-    if isinstance(st, ast.Expr) and isinstance(st.value, (ast.Call, ast.Yield)):
+    if isinstance(st, ast.Expr) and isinstance(st.value, (ast.Call, ast.Yield, ast.YieldFrom, ast.Await)):
         return norm(st)
     return None
 
@@ -115,6 +116,44 @@ def propagate(stmts: T.Sequence[ast.stmt], env: T.Optional[T.Dict[str, ast.AST]]
                 if isinstance(n, ast.Name) and isinstance(n.ctx, ast.Store):
                     env.pop(n.id, None)
     return env, rest
+
+
+def resolved_conds(row: tables.Row) -> T.Optional[T.Dict[Atom, bool]]:
+    """The tests of a row with every local replaced by its reaching definition *at the point of the test* (copy propagation along
+    the path); None when two tests of the row then contradict each other."""
+    env: T.Dict[str, ast.AST] = {}
+    out: T.Dict[Atom, bool] = {}
+    for ev in row.path.events:
+        if ev.kind == 'stmt' and isinstance(ev.node, ast.stmt):
+            env, _ = propagate([ev.node], env)
+        elif ev.kind in ('iter', 'with') and ev.node is not None:
+            for n in ast.walk(ev.node.target if ev.kind == 'iter' else ev.node):     # type: ignore[attr-defined]
+                if isinstance(n, ast.Name) and isinstance(n.ctx, ast.Store):
+                    env.pop(n.id, None)
+        elif ev.kind == 'cond':
+            a, pol = tables.canon(resolve(ev.node, env), True)     # type: ignore[arg-type]
+            v = ev.val == pol
+            if out.get(a, v) != v:
+                return None
+            out[a] = v
+    return out
+
+
+class _GroupsUnpack(ast.NodeTransformer):
+    """`a, b, c = m.groups()`  ->  `a = m.group(1); b = m.group(2); c = m.group(3)`"""
+
+    def __init__(self, m: str):
+        self.m = m
+
+    def visit_Assign(self, node: ast.Assign) -> T.Any:
+        if len(node.targets) == 1 and isinstance(node.targets[0], (ast.Tuple, ast.List)) and isinstance(node.value, ast.Call) and norm(node.value.func) == f'{self.m}.groups' \
+                and not node.value.args and all(isinstance(t, ast.Name) for t in node.targets[0].elts):
+            out = []
+            for i, t in enumerate(node.targets[0].elts, 1):
+                call = ast.Call(func=ast.Attribute(value=ast.Name(id=self.m, ctx=ast.Load()), attr='group', ctx=ast.Load()), args=[ast.Constant(i)], keywords=[])
+                out.append(ast.fix_missing_locations(ast.copy_location(ast.Assign(targets=[ast.Name(id=t.id, ctx=ast.Store())], value=call), node)))     # type: ignore[attr-defined]
+            return out
+        return node
 
 
 def strip_wrappers(e: ast.AST, names: T.Iterable[str] = ('strip', 'lstrip')) -> T.Tuple[ast.AST, T.List[str]]:
@@ -235,7 +274,9 @@ def r1_split(ctx: RuleCtx) -> None:
     it = loop.iter
     ok_iter = isinstance(it, ast.Call) and isinstance(it.func, ast.Attribute) and it.func.attr == 'split' and [norm(a) for a in it.args] == ["','"] \
         and names_in(it.func.value) == {param}
-    ctx.require(ok_iter, 'split: the requirement is cut at commas', mod, 'split', loop.iter, f'the parts are not produced by <requirement>.split(\',\'): {short(loop.iter)}')
+    if not ok_iter:
+        raise Undecided(f'split: the parts are produced by `{short(loop.iter)}`, not by <requirement>.split(\',\'): a form this rule does not read')
+    ctx.ok('split: the requirement is cut at commas')
     tab = tables.extract(fn, body=loop.body, effects=eff, inline=False, name='split:loop')
     preds: T.Dict[Atom, T.Callable[[str], bool]] = {}
     # the prefixes the table itself tests, plus the documented operators
@@ -261,6 +302,9 @@ def r1_split(ctx: RuleCtx) -> None:
             ctx.violation(mod, 'split', 'part is stripped before the operator tests', f'for a part like {text!r} the row does not start with `{var} = {src}.strip()`: '
                           f'"1.0, <2" would hand " <2" to the prefix tests', loop)
             continue
+        for s0 in stmts[1:]:
+            if not (isinstance(s0, (ast.Assign, ast.AnnAssign)) or (isinstance(s0, ast.Expr) and isinstance(s0.value, ast.Yield))):
+                raise Undecided(f'split: the row for a part like {text!r} contains `{short(s0)}`, which may produce or change the result in a form this rule does not read')
         ys = [s.value.value for s in stmts if isinstance(s, ast.Expr) and isinstance(s.value, ast.Yield)]
         ops = [o for o in sorted(OPS, key=len, reverse=True) if text.startswith(o)]
         if text == '*':
@@ -431,42 +475,65 @@ def r1_cargo_parse(ctx: RuleCtx) -> None:
     env0, _ = propagate([s for s in pre if eff(s)])
     outs = [k for k, v in env0.items() if isinstance(v, ast.List) and not v.elts]
     accs = [k for k, v in env0.items() if isinstance(v, ast.Constant) and v.value is False]
+    derived_flag = False
+    if len(outs) == 1 and not accs:
+        # the flag may be computed after the loop from the appended bounds: flag = any(b.has_prerelease for _, b in out)
+        for st in post:
+            v = st.value if isinstance(st, ast.Assign) and isinstance(st.targets[0], ast.Name) else None
+            if isinstance(v, ast.Call) and norm(v.func) == 'any' and len(v.args) == 1 and isinstance(v.args[0], (ast.GeneratorExp, ast.ListComp)) and len(v.args[0].generators) == 1:
+                g = v.args[0].generators[0]
+                if norm(g.iter) == outs[0] and isinstance(g.target, ast.Tuple) and len(g.target.elts) == 2 and norm(v.args[0].elt) == f'{norm(g.target.elts[1])}.has_prerelease' and not g.ifs:
+                    accs = [st.targets[0].id]     # type: ignore[union-attr]
+                    derived_flag = True
     if len(outs) != 1 or len(accs) != 1:
         raise Undecided(f'cargo_parse: expected one empty constraint list and one flag initialised to False before the loop, found {outs} / {accs}')
     OUT, ACC = outs[0], accs[0]
-    ctx.ok(f'cargo_parse: constraint list `{OUT}` starts empty, pre-release flag `{ACC}` starts False')
+    ctx.ok(f'cargo_parse: constraint list `{OUT}` starts empty, pre-release flag `{ACC}` ' + ('is the disjunction of has_prerelease over the appended bounds' if derived_flag else 'starts False'))
     rw = _SearchLoops()
     body = [rw.visit(copy.deepcopy(s)) for s in loop.body]
     tab = tables.extract(fn, body=body, effects=eff, inline=False, name='cargo_parse:loop')
     semdef = f'SemVer({vervar})'
-    # classify atoms
-    op_atoms: T.Dict[Atom, str] = {}
-    other: T.List[Atom] = []
+    # classify atoms: tests of the operator are decided per operator class (== constant, membership in a folded constant set / table)
+    def const_table(e: ast.AST) -> T.Optional[T.Dict[T.Any, ast.AST]]:
+        """A module-level dict display with constant keys, found through the name that is read (policy form c)."""
+        if isinstance(e, ast.Name) and mod.has_assign(e.id):
+            d = mod.assign_value(e.id)
+            if isinstance(d, ast.Dict) and all(k is not None and is_const(k) for k in d.keys):
+                return {const_of(k): v for k, v in zip(d.keys, d.values)}     # type: ignore[arg-type]
+        return None
+    op_atoms: T.Dict[Atom, T.Callable[[str], bool]] = {}
     for a in tab.atoms():
         if a.kind == 'cmp' and a.args[0] == 'eq' and a.args[1] == opvar and is_const(expr_of(a.args[2])):
-            op_atoms[a] = const_of(expr_of(a.args[2]))
-        else:
-            other.append(a)
-    ctx.floor('cargo_parse: operators with an arm', len(set(op_atoms.values()) & set(OPS)), 8)
-    missing = sorted(set(OPS) - set(op_atoms.values()))
-    for o in missing:
-        ctx.violation(mod, 'cargo_parse', f'operator {o}', f'split() can yield the operator {o!r} but no arm of cargo_parse tests for it: the constraint would be dropped', loop)
+            op_atoms[a] = (lambda c: (lambda o: o == c))(const_of(expr_of(a.args[2])))
+        elif a.kind == 'in' and a.args[0] == opvar:
+            e2 = expr_of(a.args[1])
+            tbl = const_table(e2)
+            keys = set(tbl) if tbl is not None else _folded(ctx, mod, e2)
+            if isinstance(keys, dict):
+                keys = set(keys)
+            if not isinstance(keys, (set, frozenset, tuple, list)):
+                raise Undecided(f'cargo_parse: operator test {a!r} is not a membership in a constant collection')
+            op_atoms[a] = (lambda ks: (lambda o: o in ks))(set(keys))
     semvar: T.Optional[str] = None
     for st in loop.body:
         if isinstance(st, ast.Assign) and norm(st.value) == semdef and isinstance(st.targets[0], ast.Name):
             semvar = st.targets[0].id
     if semvar is None:
         raise Undecided(f'cargo_parse: `x = SemVer({vervar})` not found in the loop body')
-    for op in [o for o in OPS if o not in missing]:
+    HP = Atom('truth', (f'{semvar}.has_prerelease',))
+    has_hp = HP in tab.atoms()
+    for op in OPS:
         bad: T.Optional[T.Tuple[ast.AST, str]] = None
         nw = 0
-        for n, pat in _req_classes():
-            world: T.Dict[Atom, bool] = {a: (c == op) for a, c in op_atoms.items()}
+        for (n, pat), hp in itertools.product(_req_classes(), (True, False) if has_hp else (None,)):
+            world: T.Dict[Atom, bool] = {a: p(op) for a, p in op_atoms.items()}
+            if has_hp:
+                world[HP] = bool(hp)
             rows = []
             for r in tab.rows:
-                if any(world.get(a) != v for a, v in r.conds.items() if a in op_atoms):
+                if any(world.get(a) != v for a, v in r.conds.items() if a in world):
                     continue
-                if all(_req_atom(a, semvar, n, pat) == v for a, v in r.conds.items() if a not in op_atoms):
+                if all(_req_atom(a, semvar, n, pat) == v for a, v in r.conds.items() if a not in world):
                     rows.append(r)
             if len(rows) != 1:
                 raise Undecided(f'cargo_parse: {len(rows)} rows fire for operator {op!r}, {n} specified component(s), zero pattern {pat}')
@@ -494,6 +561,15 @@ def r1_cargo_parse(ctx: RuleCtx) -> None:
                 elif OUT in names_in(st) and not (isinstance(st, ast.Assign) and OUT not in {n.id for t in st.targets for n in ast.walk(t) if isinstance(n, ast.Name)}):
                     raise Undecided(f'cargo_parse: the constraint list is used by `{short(st)}`, a form this rule does not read')
             for pair in pairs:
+                if isinstance(pair, ast.Tuple) and len(pair.elts) == 2 and isinstance(pair.elts[0], ast.Subscript) and norm(pair.elts[0].slice) == opvar:
+                    # comparator read from a constant table keyed by the operator: the entry for this operator class
+                    tbl = const_table(pair.elts[0].value)
+                    if tbl is None:
+                        raise Undecided(f'cargo_parse: comparator {short(pair.elts[0])} does not index a module-level constant table')
+                    if op not in tbl:
+                        shape_bad = f'reads {short(pair.elts[0])}, but the table has no entry for {op!r} (KeyError)'
+                        continue
+                    pair = ast.Tuple(elts=[tbl[op], pair.elts[1]], ctx=ast.Load())
                 if not (isinstance(pair, ast.Tuple) and len(pair.elts) == 2 and (attr_chain(pair.elts[0]) or '').startswith('operator.')):
                     shape_bad = f'appends {short(pair)}, not an (operator.<cmp>, bound) pair'
                     continue
@@ -530,11 +606,20 @@ def r1_cargo_parse(ctx: RuleCtx) -> None:
             # the pre-release flag is sticky: flag = flag or V.has_prerelease on every row
             acc = env.get(ACC)
             acc_s = norm(_Replace(semdef, 'V').visit(copy.deepcopy(acc))) if acc is not None else None
-            if acc_s not in (f'{ACC} or V.has_prerelease', f'V.has_prerelease or {ACC}') and bad is None:
+            if derived_flag:
+                # the flag only sees what the row appends: the version itself must be among the bounds (next_ver drops the pre-release)
+                acc_ok = any(b == 'V' for _c, b in got)
+                acc_s = f'any(has_prerelease of {[b for _c, b in got]})'
+            elif has_hp:
+                # the row is specific to has_prerelease: True -> flag set, False -> flag untouched
+                acc_ok = acc_s in ('True', f'{ACC} or True', f'True or {ACC}', f'{ACC} or V.has_prerelease') if hp else acc_s in (None, ACC, f'{ACC} or V.has_prerelease', f'{ACC} or False')
+            else:
+                acc_ok = acc_s in (f'{ACC} or V.has_prerelease', f'V.has_prerelease or {ACC}')
+            if not acc_ok and bad is None:
                 bad = (node, f'requirement like `{desc}`: the pre-release flag becomes `{acc_s}`; expected `{ACC} or V.has_prerelease` '
                              f'(a pre-release named by any constraint enables pre-release matching)')
         if bad is None:
-            ctx.ok(f'cargo_parse: operator {op}: {nw} classes (specified components x zero pattern) append exactly the constraints of A.17; flag sticky')
+            ctx.ok(f'cargo_parse: operator {op}: {nw} classes (specified components x zero pattern{" x has_prerelease" if has_hp else ""}) append exactly the constraints of A.17; flag sticky')
         else:
             ctx.violation(mod, 'cargo_parse', f'operator {op} :: {norm(bad[0])}', bad[1], bad[0])
     _matcher(ctx, mod, fn, post, OUT, ACC)
@@ -618,7 +703,7 @@ def _matcher(ctx: RuleCtx, mod: Module, fn: ast.FunctionDef, post: T.List[ast.st
                 bad = (r, f'candidate pre-release={pre}, a constraint names a pre-release={acc}, comparison result={v.get("call", "no constraint left")}: '
                           f'the matcher returns {gotv}, expected {want}')
     if 'call' not in roles.values():
-        bad = bad or (t2.rows[0], 'the matcher never compares the candidate with the appended pairs')
+        raise Undecided(f'{qn}: no comparison of the candidate with the appended pairs is visible in this function (delegated to a helper?)')
     if bad is None:
         ctx.ok(f'{qn}: {len(t2.rows)} rows: pre-release candidates need a pre-release constraint (gate), every pair must hold (conjunction), candidate is the left operand')
     else:
@@ -672,6 +757,13 @@ def r1_next_ver(ctx: RuleCtx) -> None:
             if isinstance(st, ast.Assign) and isinstance(st.targets[0], ast.Subscript) and norm(st.targets[0]) == f'{V}[ARG1]':
                 bumps.add(norm(st.value).replace('ARG1', idx))
     cell = f'{V}[{idx}]'
+    # statements of next_ver that this rule does not account for: with any of them present an *absence* is not provable
+    known = [defs[0], rets[0]]
+    unread = [st for st in fn.body if st not in known and not isinstance(st, (ast.Assert, ast.For)) and not (isinstance(st, ast.Expr) and isinstance(st.value, ast.Constant))
+              and not (isinstance(st, ast.Assign) and isinstance(st.targets[0], ast.Name) and norm(st.value) in (f'{V}[{idx}]',))
+              and not (isinstance(st, ast.Assign) and norm(st.targets[0]) == f'{V}[{idx}]')]
+    if not bumps and unread:
+        raise Undecided(f'next_ver: no `{V}[{idx}] = ...` found and `{short(unread[0])}` is not read by this rule')
     ok = bumps and bumps <= {f'{cell} + 1', f'1 + {cell}'}
     ctx.require(bool(ok), f'next_ver: {cell} = {cell} + 1', mod, 'SemVer.next_ver', f'bump of {cell}', f'the component at the index is set to {sorted(bumps)}; expected {cell} + 1', fn)
     # zeroing of the lower components: for i in range(idx + 1, 3): V[i] = 0
@@ -681,6 +773,8 @@ def r1_next_ver(ctx: RuleCtx) -> None:
         if isinstance(lp.target, ast.Name) and isinstance(lp.iter, ast.Call) and norm(lp.iter.func) == 'range' and len(lp.body) == 1 and not lp.orelse \
                 and isinstance(lp.body[0], ast.Assign) and norm(lp.body[0].targets[0]) == f'{V}[{lp.target.id}]':
             zero = lp
+    if zero is None and (unread or [lp for lp in loops]):
+        raise Undecided(f'next_ver: the lower components may be zeroed by `{short((unread or loops)[0])}`, a form this rule does not read')
     if zero is None:
         ctx.violation(mod, 'SemVer.next_ver', 'lower components are zeroed', f'no loop `for i in range({idx} + 1, 3): {V}[i] = 0` found: bumping minor must reset patch (1.2.3 -> 1.3.0)', fn)
     else:
@@ -711,15 +805,10 @@ def r1_next_ver(ctx: RuleCtx) -> None:
     for r in tab.rows:
         env, rest = propagate(stmts_of(r))
         stores = {norm(st.targets[0]): norm(st.value) for st in rest if isinstance(st, ast.Assign) and isinstance(st.targets[0], ast.Attribute)}
-        pads = [a for a, v in r.conds.items() if a.kind == 'cmp' and a.args[0] == 'lt' and v is False and a.args[2] == '4' and a.args[1].startswith('len(')]
-        if not pads:
+        if 'self._v' not in stores:
             continue
         nrow += 1
-        vecname = pads[0].args[1][4:-1]
-        ok = stores.get('self._v') in ('list(ARG1)', vecname) and stores.get('self.specified_count') in ('min(3, len(ARG1))', 'min(len(ARG1), 3)')
-        if stores.get('self._v') == vecname:
-            vd = [s for s in ast.walk(ast.Module(body=top[0].orelse, type_ignores=[])) if isinstance(s, ast.Assign) and norm(s.targets[0]) == vecname]
-            ok = ok and len(vd) == 1 and norm(vd[0].value) == f'list({inp})'
+        ok = stores.get('self._v') == 'list(ARG1)' and stores.get('self.specified_count') in ('min(3, len(ARG1))', 'min(len(ARG1), 3)')
         ctx.require(ok, 'SemVer(list): _v = list(input), specified_count = min(3, len(input))', mod, 'SemVer.__init__', 'list constructor',
                     f'the list constructor stores {stores}', top[0])
     ctx.floor('SemVer(list) rows', nrow, 1)
@@ -733,7 +822,14 @@ def r1_next_ver(ctx: RuleCtx) -> None:
             ctx.require(okp, 'SemVer: the vector is padded with 0 up to four slots (slot 3 = 0 marks a release)', mod, 'SemVer.__init__', w,
                         f'the padding loop is `while {norm(w.test)}: {norm(w.body[0])}`; slot 3 of a release must be 0', w)
     if not pads4:
-        raise Undecided('SemVer.__init__: final padding loop `while len(vec) < 4` not found')
+        # the same padding as one statement: vec.extend([0] * (4 - len(vec)))
+        ext = [st for st in tail if isinstance(st, (ast.Expr, ast.AugAssign)) and _re.fullmatch(r'(\w+)\.extend\(\[(-?\d+)\] \* \(4 - len\(\1\)\)\)|(\w+) \+= \[(-?\d+)\] \* \(4 - len\(\3\)\)', norm(st))]
+        if len(ext) != 1:
+            raise Undecided('SemVer.__init__: final padding (`while len(vec) < 4: vec.append(0)` or `vec.extend([0] * (4 - len(vec)))`) not found')
+        mm = _re.fullmatch(r'(\w+)\.extend\(\[(-?\d+)\] \* \(4 - len\(\1\)\)\)|(\w+) \+= \[(-?\d+)\] \* \(4 - len\(\3\)\)', norm(ext[0]))
+        fill = mm.group(2) or mm.group(4)     # type: ignore[union-attr]
+        ctx.require(fill == '0', 'SemVer: the vector is padded with 0 up to four slots (slot 3 = 0 marks a release)', mod, 'SemVer.__init__', ext[0],
+                    f'the padding statement is `{norm(ext[0])}`; slot 3 of a release must be 0', ext[0])
 
 
 # =====================================================================================================
@@ -752,13 +848,9 @@ def r2_core(ctx: RuleCtx) -> None:
     # the dunders hand the core the same field of `other` that the core pairs with its own
     meths = mod.methods('SemVer')
     name = core if core in meths else f'_SemVer{core}'
-    fn = meths[name]
-    other = fn.args.args[1].arg
-    loop = [s for s in fn.body if isinstance(s, ast.For)][0]
-    own = [attr_chain(a) for a in loop.iter.args if 'self' in {n.id for n in ast.walk(a) if isinstance(n, ast.Name)}]   # type: ignore[attr-defined]
-    theirs = [norm(a) for a in loop.iter.args if other in {n.id for n in ast.walk(a) if isinstance(n, ast.Name)}]       # type: ignore[attr-defined]
-    if len(own) != 1 or own[0] is None or not own[0].startswith('self.') or len(theirs) != 1:
-        raise Undecided(f'SemVer.{name}: cannot attribute the zip operands')
+    # read on the normalised core (locals resolved by reaching definition: a hoisted `mine = self._v` is self._v again)
+    own0, theirs0, other = cmpcore.zip_operands(mod, 'SemVer', core)
+    own, theirs = [own0], [theirs0]
     field = own[0][len('self.'):]
     suffix = theirs[0][len(other):]     # '' when the parameter already is the field value, '._v' when it is the object
     for d in cmpcore.DUNDER_OP:
@@ -941,10 +1033,22 @@ def r2_tokens(ctx: RuleCtx) -> None:
     m = loop.target.id     # type: ignore[attr-defined]
     ctx.require([norm(a) for a in loop.iter.args] == [inp], 'the tokenizer runs over the whole input text', mod, hq, loop.iter,     # type: ignore[attr-defined]
                 f'finditer is applied to {[norm(a) for a in loop.iter.args]}, not to the input')     # type: ignore[attr-defined]
-    tab = tables.extract(host, body=loop.body, effects=eff, inline=False, name=f'{hq}:token')
+    # `a, b, c = m.groups()` is the same binding as three m.group(k) reads
+    body = [_GroupsUnpack(m).visit(copy.deepcopy(st)) for st in loop.body]
+    body = [x for st in body for x in (st if isinstance(st, list) else [st])]
+    tab = tables.extract(host, body=body, effects=eff, inline=False, name=f'{hq}:token')
+    # tests are read with the locals resolved by their reaching definition on the row (a group bound to a name first, a stripped identifier)
+    rconds: T.Dict[int, T.Dict[Atom, bool]] = {}
+    for r in list(tab.rows):
+        rc = resolved_conds(r)
+        if rc is None:
+            tab.rows.remove(r)      # contradictory after resolution: not a path
+        else:
+            rconds[id(r)] = rc
+    all_atoms = list(dict.fromkeys(a for rc in rconds.values() for a in rc))
     G = {i: Atom('truth', (f'{m}.group({i})',)) for i in (1, 2, 3)}
-    counts = [a for a in tab.atoms() if a.kind == 'cmp' and a.args[0] == 'lt' and a.args[2] == '3' and not a.args[1].startswith('len(')]
-    pads = [a for a in tab.atoms() if a.kind == 'cmp' and a.args[0] == 'lt' and a.args[2] == '3' and a.args[1] == f'len({vec})']
+    counts = [a for a in all_atoms if a.kind == 'cmp' and a.args[0] == 'lt' and a.args[2] == '3' and not a.args[1].startswith('len(')]
+    pads = [a for a in all_atoms if a.kind == 'cmp' and a.args[0] == 'lt' and a.args[2] == '3' and a.args[1] == f'len({vec})']
     if len(counts) != 1:
         raise Undecided(f'SemVer.__init__: expected one `<count> < 3` atom, found {counts}')
     count = counts[0].args[1]
@@ -957,8 +1061,23 @@ def r2_tokens(ctx: RuleCtx) -> None:
     PRE = Atom('truth', (pre,))
 
     def appended(r: tables.Row) -> T.List[ast.AST]:
-        _env, rest = propagate(stmts_of(r))
-        return [st.value.args[0] for st in rest if isinstance(st, ast.Expr) and isinstance(st.value, ast.Call) and norm(st.value.func) == f'{vec}.append' and len(st.value.args) == 1]
+        _env, rest = propagate(stmts_of(r), opaque=[vec])
+        out: T.List[ast.AST] = []
+        for st in rest:
+            c = st.value if isinstance(st, ast.Expr) else None
+            if isinstance(c, ast.Call) and norm(c.func) == f'{vec}.append' and len(c.args) == 1:
+                out.append(c.args[0])
+            elif isinstance(c, ast.Call) and norm(c.func) == f'{vec}.extend' and len(c.args) == 1 and isinstance(c.args[0], (ast.List, ast.Tuple)) \
+                    and not any(isinstance(x, ast.Starred) for x in c.args[0].elts):
+                out.extend(c.args[0].elts)
+            elif isinstance(st, ast.AugAssign) and norm(st.target) == vec and isinstance(st.op, ast.Add) and isinstance(st.value, (ast.List, ast.Tuple)) \
+                    and not any(isinstance(x, ast.Starred) for x in st.value.elts):
+                out.extend(st.value.elts)
+            elif _re.fullmatch(_re.escape(vec) + r'\.extend\(\[0\] \* \(3 - len\(' + _re.escape(vec) + r'\)\)\)|' + _re.escape(vec) + r' \+= \[0\] \* \(3 - len\(' + _re.escape(vec) + r'\)\)', norm(st)):
+                pass     # padding of the release part (judged at the pre-release start)
+            elif vec in names_in(st):
+                raise Undecided(f'{hq}: the vector is used by `{short(st)}`, a form this rule does not read')
+        return out
 
     def node_of(r: tables.Row, payload: T.Optional[str] = None) -> ast.AST:
         for ev in reversed(r.path.events):
@@ -967,7 +1086,7 @@ def r2_tokens(ctx: RuleCtx) -> None:
         return r.path.events[-1].node if r.path.events else loop
     n_rows = {'digit': 0, 'ident': 0, 'build': 0}
     for r in tab.rows:
-        c = r.conds
+        c = rconds[id(r)]
         node = node_of(r)
         if c.get(G[1]) is True:
             # ---- numeric token
@@ -1023,7 +1142,16 @@ def r2_tokens(ctx: RuleCtx) -> None:
                 raise Undecided(f'SemVer.__init__: appended identifier {short(payload)} is not group(2) or a tail of it')
             if c.get(PRE) is False:
                 marker = [norm(x) for x in app_nodes[:-1]]
-                padded = any(a in pads and v is False for a, v in c.items())
+                # padding to three components: the exit test of `while len(vec) < 3: vec.append(0)`, or vec.extend([0] * (3 - len(vec)))
+                pad_shapes = (f'{vec}.extend([0] * (3 - len({vec})))', f'{vec}.extend((0,) * (3 - len({vec})))', f'{vec} += [0] * (3 - len({vec}))')
+                before_marker = []
+                for st0 in stmts_of(r):
+                    if norm(st0) == f'{vec}.append(-1)':
+                        break
+                    before_marker.append(st0)
+                padded = any(a in pads and v is False for a, v in c.items()) or any(norm(st0) in pad_shapes for st0 in before_marker)
+                if not padded and any(vec in names_in(st0) and not norm(st0).startswith(f'{vec}.append(') for st0 in before_marker):
+                    raise Undecided(f'{hq}: `{short(before_marker[-1])}` may pad the release part in a form this rule does not read')
                 sets = [s for s in stmts_of(r) if isinstance(s, ast.Assign) and norm(s.targets[0]) == pre and norm(s.value) == 'True']
                 ctx.require(marker == ['-1'] and padded and bool(sets), 'first identifier: release part padded to three, slot 3 = -1, pre-release state entered', mod, hq,
                             f'pre-release start :: {norm(node)}', f'row `{r!r}`: values appended before the identifier {marker} (expected [-1]), padded to three components: {padded}, '
@@ -1239,6 +1367,59 @@ DELIMS = {'(': 'LPAREN', ')': 'RPAREN', ',': 'COMMA', '=': 'EQUAL'}
 TOKEN_CLASS = {'ALL': 'All', 'ANY': 'Any', 'NOT': 'Not'}
 
 
+def _char_loop(loop: ast.For, raw: str) -> T.Tuple[str, str, T.List[ast.stmt]]:
+    """(index name, character name, body) of `for i, s in enumerate(raw)` or `for i in range(len(raw)): s = raw[i]`."""
+    it, tg = loop.iter, loop.target
+    if isinstance(it, ast.Call) and norm(it.func) == 'enumerate' and [norm(a) for a in it.args] == [raw] and isinstance(tg, ast.Tuple) and len(tg.elts) == 2 \
+            and all(isinstance(x, ast.Name) for x in tg.elts):
+        return tg.elts[0].id, tg.elts[1].id, list(loop.body)     # type: ignore[attr-defined]
+    if isinstance(it, ast.Call) and norm(it) == f'range(len({raw}))' and isinstance(tg, ast.Name) and loop.body and isinstance(loop.body[0], ast.Assign) \
+            and isinstance(loop.body[0].targets[0], ast.Name) and norm(loop.body[0].value) == f'{raw}[{tg.id}]':
+        return tg.id, loop.body[0].targets[0].id, list(loop.body[1:])
+    raise Undecided(f'lexer: the loop is not `for i, s in enumerate({raw})` / `for i in range(len({raw})): s = {raw}[i]`')
+
+
+def _word_pred(ctx: RuleCtx, mod: Module, a: Atom, W: str) -> T.Optional[T.Callable[[str], bool]]:
+    """Truth of an atom over the pending word for a word class (keyword / other word / empty)."""
+    if a == Atom('truth', (W,)):
+        return lambda w: w != ''
+    if a.kind == 'in' and a.args[0] == W and _is_folded(ctx, mod, expr_of(a.args[1])):
+        cs = _folded(ctx, mod, expr_of(a.args[1]))
+        if isinstance(cs, (dict, set, frozenset, tuple, list)):
+            return lambda w: w in cs
+    if a.kind == 'cmp' and a.args[0] == 'eq' and a.args[1] == W and is_const(expr_of(a.args[2])):
+        c = const_of(expr_of(a.args[2]))
+        return lambda w: w == c
+    return None
+
+
+def _word_helpers(ctx: RuleCtx, mod: Module, body: T.List[ast.stmt], W: str) -> T.Dict[str, T.Callable[[str], str]]:
+    """Locals bound to `H(word)` where H is a module-level classification function of the word alone: local -> (word class -> text of
+    the value H returns for that class, with H's parameter spelled as the word variable).  A callee summary by decision table."""
+    out: T.Dict[str, T.Callable[[str], str]] = {}
+    for st in ast.walk(ast.Module(body=body, type_ignores=[])):
+        if isinstance(st, ast.Assign) and isinstance(st.targets[0], ast.Name) and isinstance(st.value, ast.Call) and isinstance(st.value.func, ast.Name) \
+                and mod.has_func(st.value.func.id) and [norm(a) for a in st.value.args] == [W] and not st.value.keywords:
+            h = mod.func(st.value.func.id)
+            if len(h.args.args) != 1:
+                continue
+            th = tables.extract(h, name=h.name)
+            preds = {}
+            for a in th.atoms():
+                p = _word_pred(ctx, mod, a, 'ARG1')
+                if p is None:
+                    raise Undecided(f'{h.name}: atom outside the word vocabulary: {a!r}')
+                preds[a] = p
+
+            def ret(w: str, th: tables.Table = th, preds: T.Dict[Atom, T.Any] = preds, h: ast.FunctionDef = h) -> str:
+                rows = th.fire({a: p(w) for a, p in preds.items()})
+                if len(rows) != 1 or rows[0].outcome[0] not in ('return', 'fall'):
+                    raise Undecided(f'{h.name}: {len(rows)} rows for the word class {w!r}')
+                return norm(_Replace('ARG1', W).visit(expr_of(rows[0].outcome[1]))) if rows[0].outcome[0] == 'return' else 'None'
+            out[st.targets[0].id] = ret
+    return out
+
+
 def _lexer_table(ctx: RuleCtx, mod: Module) -> T.Dict[str, str]:
     """Checks the decision table of the lexer loop body; returns keyword -> token member."""
     fn = mod.func('lexer')
@@ -1247,12 +1428,8 @@ def _lexer_table(ctx: RuleCtx, mod: Module) -> T.Dict[str, str]:
     if len(loops) != 1:
         raise Undecided('lexer: expected one character loop')
     loop = loops[0]
-    ok = isinstance(loop.iter, ast.Call) and norm(loop.iter.func) == 'enumerate' and [norm(a) for a in loop.iter.args] == [raw] \
-        and isinstance(loop.target, ast.Tuple) and len(loop.target.elts) == 2 and all(isinstance(x, ast.Name) for x in loop.target.elts)
-    if not ok:
-        raise Undecided(f'lexer: the loop is not `for i, s in enumerate({raw})`')
-    I, S = (x.id for x in loop.target.elts)     # type: ignore[attr-defined]
-    tab = tables.extract(fn, body=loop.body, effects=eff, inline=False, name='lexer:char')
+    I, S, body = _char_loop(loop, raw)
+    tab = tables.extract(fn, body=body, effects=eff, inline=False, name='lexer:char')
     # names by role: the word (a slice of the input ending at i), the start index, the in-string flag
     words = {norm(s.targets[0]) for s in ast.walk(loop) if isinstance(s, ast.Assign) and isinstance(s.value, ast.Subscript) and norm(s.value.value) == raw
              and isinstance(s.value.slice, ast.Slice) and norm(s.value.slice.upper) == I}
@@ -1266,7 +1443,14 @@ def _lexer_table(ctx: RuleCtx, mod: Module) -> T.Dict[str, str]:
     if START is None:
         raise Undecided('lexer: the word does not start at a tracked index')
 
+    helpers = _word_helpers(ctx, mod, body, W)
+
     def atom_pred(a: Atom) -> T.Callable[[str, str, bool], bool]:
+        for hv, ret in helpers.items():
+            if a == Atom('is', (hv, 'None')):
+                return lambda s, w, f, ret=ret: ret(w) == 'None'     # type: ignore[misc]
+            if a == Atom('truth', (hv,)):
+                return lambda s, w, f, ret=ret: ret(w) != 'None'     # type: ignore[misc]
         if a == Atom('truth', (f'{S}.isspace()',)):
             return lambda s, w, f: s in WHITESPACE
         if a == Atom('truth', (F,)):
@@ -1285,7 +1469,10 @@ def _lexer_table(ctx: RuleCtx, mod: Module) -> T.Dict[str, str]:
     preds = {a: atom_pred(a) for a in tab.atoms()}
 
     def table_lookup(y: ast.AST, s_cls: str, w_cls: str) -> ast.AST:
-        """`TABLE[word]` / `TABLE[char]` with a module-level constant dict: the member the table holds for this class (policy form c)."""
+        """`TABLE[word]` / `TABLE[char]` with a module-level constant dict: the member the table holds for this class (policy form c);
+        a local bound to a word-classification helper: what the helper returns for this word class."""
+        if isinstance(y, ast.Name) and y.id in helpers:
+            return expr_of(helpers[y.id](w_cls))
         if isinstance(y, ast.Tuple) and y.elts and isinstance(y.elts[0], ast.Subscript) and isinstance(y.elts[0].value, ast.Name) and norm(y.elts[0].slice) in (S, W):
             tbl = _folded(ctx, mod, y.elts[0].value)
             key = s_cls if norm(y.elts[0].slice) == S else w_cls
@@ -1307,6 +1494,9 @@ def _lexer_table(ctx: RuleCtx, mod: Module) -> T.Dict[str, str]:
         n += 1
         r = rows[0]
         sts = stmts_of(r)
+        for st in sts:
+            if isinstance(st, ast.Expr) and not isinstance(st.value, ast.Yield):
+                raise Undecided(f'lexer: the row contains `{short(st)}`, which may produce tokens in a form this rule does not read')
         ys = [norm(table_lookup(st.value.value, s_cls, w_cls)) for st in sts if isinstance(st, ast.Expr) and isinstance(st.value, ast.Yield)]
         writes = {norm(st.targets[0]): norm(st.value) for st in sts if isinstance(st, ast.Assign) and norm(st.targets[0]) in (START, F)}
         node = r.path.events[-1].node if r.path.events else loop
@@ -1372,6 +1562,8 @@ def r3_maps(ctx: RuleCtx) -> None:
     for k in KEYWORDS:
         tok = kw.get(k)
         cls = tmap.get(tok or '')
+        if tok is None or cls is None or cls not in arms:
+            raise Undecided(f'keyword chain {k!r}: token {tok} / class {cls} could not be read from the lexer / parser tables')
         den = arms.get(cls or '', ('?', None))[0]
         if den.startswith('unreadable'):
             raise Undecided(f'_eval_cfg: arm for {cls} is in a form this rule does not read ({den})')
@@ -1382,6 +1574,65 @@ def r3_maps(ctx: RuleCtx) -> None:
 # =====================================================================================================
 # R4  malformed input is rejected, not mis-evaluated
 # =====================================================================================================
+
+def _token_var(inner: ast.FunctionDef) -> str:
+    """Name of the current-token variable of the recursive parser: first element of the pair read from the stream."""
+    arg = inner.args.args[0].arg
+    for st in inner.body:
+        if isinstance(st, ast.Assign) and isinstance(st.value, ast.Call) and norm(st.value.func) == 'next' and [norm(a) for a in st.value.args] == [arg]:
+            t = st.targets[0]
+            if isinstance(t, ast.Tuple) and len(t.elts) == 2 and isinstance(t.elts[0], ast.Tuple) and len(t.elts[0].elts) == 2 and isinstance(t.elts[0].elts[0], ast.Name):
+                return t.elts[0].elts[0].id
+    raise Undecided(f'{inner.name}: first token read `(token, value), look = next({arg})` not found')
+
+
+class _Expect:
+    """Token-expectation helpers found by role: a function (nested in the parser or module-level) whose whole table is
+    `A is B` false -> raise MesonException, true -> fall through.  Calls are bound to the signature (positional or keyword)."""
+
+    def __init__(self, mod: Module, inner: ast.FunctionDef):
+        self.tok = _token_var(inner)
+        self.helpers: T.Dict[str, T.Tuple[ast.FunctionDef, T.Tuple[str, str], bool]] = {}   # name -> (fn, (side, side), raises_when_different)
+        cands: T.Dict[str, ast.FunctionDef] = {st.name: st for st in inner.body if isinstance(st, ast.FunctionDef)}
+        for c in ast.walk(inner):
+            if isinstance(c, ast.Call) and isinstance(c.func, ast.Name) and c.func.id not in cands and c.func.id != inner.name and mod.has_func(c.func.id):
+                cands[c.func.id] = mod.func(c.func.id)     # type: ignore[assignment]
+        for name, f in cands.items():
+            try:
+                tab = tables.extract(f, name=name)
+            except Undecided:
+                continue
+            atoms = tab.atoms()
+            if len(atoms) != 1 or atoms[0].kind != 'is' or len(tab.rows) != 2:
+                continue
+            out = {r.conds[atoms[0]]: r.outcome for r in tab.rows}
+            if out.get(False) == ('raise', 'MesonException') and out.get(True, ('?',))[0] in ('fall', 'return'):
+                self.helpers[name] = (f, (atoms[0].args[0], atoms[0].args[1]), True)
+            elif out.get(True) == ('raise', 'MesonException') and out.get(False, ('?',))[0] in ('fall', 'return'):
+                self.helpers[name] = (f, (atoms[0].args[0], atoms[0].args[1]), False)
+
+    def call(self, c: ast.AST) -> T.Optional[T.Tuple[str, str, str]]:
+        """(helper name, expected TokenType member, name of the variable that is checked) for a call of an expectation helper."""
+        if not (isinstance(c, ast.Call) and isinstance(c.func, ast.Name) and c.func.id in self.helpers):
+            return None
+        f, sides, _ = self.helpers[c.func.id]
+        params = [a.arg for a in f.args.args]
+        bound: T.Dict[str, ast.AST] = {}
+        for i, a in enumerate(c.args):
+            if isinstance(a, ast.Starred) or i >= len(params):
+                raise Undecided(f'call {short(c)} cannot be bound to the signature of {f.name}')
+            bound[f'ARG{i + 1}'] = a
+        for k in c.keywords:
+            if k.arg is None or k.arg not in params + [a.arg for a in f.args.kwonlyargs]:
+                raise Undecided(f'call {short(c)} cannot be bound to the signature of {f.name}')
+            bound[f'ARG{params.index(k.arg) + 1}' if k.arg in params else f'ARG_{k.arg}'] = k.value
+        vals = [bound[x] if x in bound else expr_of(x) for x in sides]
+        members = [(attr_chain(v) or '').split('.')[1] for v in vals if (attr_chain(v) or '').startswith('TokenType.') and (attr_chain(v) or '').count('.') == 1]
+        names = [v.id for v in vals if isinstance(v, ast.Name)]
+        if len(members) != 1 or len(names) != 1:
+            raise Undecided(f'expectation call {short(c)}: cannot tell the expected member from the checked variable')
+        return c.func.id, members[0], names[0]
+
 
 class _SubCalls(ast.NodeTransformer):
     """Replace recursive calls by numbered placeholders (in evaluation order)."""
@@ -1417,7 +1668,7 @@ def _lookahead_token(v: ast.AST) -> T.Optional[str]:
     return None
 
 
-def _trace(fn: ast.FunctionDef, p: Path) -> T.Optional[T.Tuple[T.List[T.Tuple[T.Any, ...]], T.Tuple[T.Any, ...]]]:
+def _trace(fn: ast.FunctionDef, p: Path, expect: _Expect) -> T.Optional[T.Tuple[T.List[T.Tuple[T.Any, ...]], T.Tuple[T.Any, ...]]]:
     """Abstract one enumerated path of the recursive parser to its sequence of stream operations and token tests.
     Items: ('read', k) ('skip', k) ('expect', MEMBER, k) ('test', MEMBER, k, bool) ('testin', members, k, bool)
     ('look', MEMBER, j, bool) ('lookany', j, bool) ('sub', n).  None = the path is infeasible (constant-false test)."""
@@ -1494,10 +1745,10 @@ def _trace(fn: ast.FunctionDef, p: Path) -> T.Optional[T.Tuple[T.List[T.Tuple[T.
         elif isinstance(st, ast.Expr) and is_next(st.value):
             reads += 1
             tr.append(('skip', reads))
-        elif isinstance(st, ast.Expr) and isinstance(st.value, ast.Call) and norm(st.value.func) == 'assertToken':
-            mname = member(st.value.args[0]) if st.value.args else None
-            if mname is None:
-                raise Undecided(f'{fn.name}: {short(st)}')
+        elif isinstance(st, ast.Expr) and expect.call(st.value) is not None:
+            _h, mname, checked = expect.call(st.value)     # type: ignore[misc]
+            if checked != expect.tok:
+                raise Undecided(f'{fn.name}: {short(st)} checks {checked}, not the current token')
             tr.append(('expect', mname, cur))
         elif isinstance(st, ast.Assign) and len(st.targets) == 1 and isinstance(st.targets[0], ast.Tuple) and len(st.targets[0].elts) == 2 \
                 and all(isinstance(x, ast.Name) for x in st.targets[0].elts):
@@ -1671,13 +1922,18 @@ def _parse_analysis(ctx: RuleCtx, mod: Module, report: bool) -> T.Dict[str, T.An
     tmap: T.Dict[str, str] = {}
     per: T.Dict[str, int] = {}
     bad: T.Dict[str, T.Tuple[ast.AST, str]] = {}
+    expect = _Expect(mod, fn)
     for p in paths:
-        t = _trace(fn, p)
+        t = _trace(fn, p, expect)
         if t is None:
             continue
         tr, out = t
         prod, err = _match_production(tr, out, tmap)
         per[prod] = per.get(prod, 0) + 1
+        if err is not None and out[0] == 'return':
+            unknown = [norm(c.func) for c in ast.walk(expr_of(out[1])) if isinstance(c, ast.Call) and isinstance(c.func, ast.Name) and mod.has_func(c.func.id) and c.func.id != fn.name]
+            if unknown:
+                raise Undecided(f'_parse: a path returns `{out[1]}` through {unknown}, a helper this rule does not follow')
         if err is not None:
             node = [e.node for e in p.events if e.kind == 'stmt'][-1] if p.events else fn
             bad.setdefault(f'{prod}: {err.split(";")[0].split("(found")[0].strip()} :: {norm(node)}',
@@ -1690,15 +1946,12 @@ def _parse_analysis(ctx: RuleCtx, mod: Module, report: bool) -> T.Dict[str, T.An
                 ctx.require(per.get(prod, 0) > 0, f'_parse: production `{prod}`: {per.get(prod, 0)} enumerated path(s) read / check / recurse / build exactly as the grammar prescribes',
                             mod, '_parse', f'production {prod}', f'no path of _parse implements the production `{prod}`', fn)
         ctx.floor('_parse paths abstracted', sum(per.values()), 6)
-        # assertToken itself: raises exactly when the current token is not the expected member
-        at = mod.func('_parse.assertToken')
-        t2 = tables.extract(at, name='assertToken')
-        want_atom = Atom('is', ('token', 'ARG1'))
-        for r in t2.rows:
-            ok = list(r.conds) == [want_atom] and ((r.conds[want_atom] is False and r.outcome == ('raise', 'MesonException')) or (r.conds[want_atom] is True and r.outcome[0] in ('fall', 'return')))
-            ctx.require(ok, f'assertToken: {"raises MesonException" if not r.conds.get(want_atom) else "passes"} when token is{"" if r.conds.get(want_atom) else " not"} the expected member',
-                        mod, '_parse.assertToken', f'assertToken row {r.conds.get(want_atom)}', f'assertToken row `{r!r}`; expected: raise MesonException iff `token is not <expected>`',
-                        r.path.events[-1].node if r.path.events else at)
+        # the expectation helper(s): raise exactly when the checked token is not the expected member
+        if not expect.helpers:
+            raise Undecided('_parse: no token-expectation helper (`if token is not <expected>: raise MesonException`) found')
+        for hname, (hf, sides, raises_when_different) in expect.helpers.items():
+            ctx.require(raises_when_different, f'{hname}: raises MesonException exactly when the checked token is not the expected member', mod, hname if mod.has_func(hname) else f'_parse.{hname}',
+                        f'{hname} polarity', f'{hname} raises MesonException when `{sides[0]} is {sides[1]}` HOLDS and passes otherwise: every delimiter check is inverted', hf)
     return {'token_class': tmap, 'bad': bad, 'per': per}
 
 
@@ -1728,6 +1981,13 @@ def r4_escape(ctx: RuleCtx) -> None:
                 nraise += 1
                 e = n.exc.func if isinstance(n.exc, ast.Call) else n.exc
                 name = attr_chain(e) if e is not None else None
+                if name not in ok_classes and name is not None and mod.has_cls(name.split('.')[-1]):
+                    chain = [attr_chain(b) or '' for _m, c in ctx.repo.mro(mod, mod.cls(name.split('.')[-1])) for b in c.bases]
+                    if any(b.split('.')[-1] in ok_classes for b in chain):
+                        ctx.ok(f'{q}: raises {name} (a MesonException subclass of this module)')
+                        continue
+                if name not in ok_classes and (name is None or not hasattr(_builtins, name.split('.')[-1])):
+                    raise Undecided(f'{q}: raises {name or "<re-raise>"}, whose class this rule cannot resolve')
                 ctx.require(name in ok_classes, f'{q}: raises {name}', mod, q, n, f'{q} raises {name or "<re-raise>"}; only MesonException may leave cfg parsing/evaluation')
     ctx.floor('raise statements in cfg.py', nraise, 5)
     # (2) _parse is entered only from parse (under the StopIteration handler) and from itself
@@ -1741,6 +2001,8 @@ def r4_escape(ctx: RuleCtx) -> None:
             if isinstance(c, ast.Call) and isinstance(c.func, ast.Name) and c.func.id == '_parse':
                 callers.setdefault(q.split('.')[0], []).append(c)
     extra = sorted(set(callers) - {'parse', '_parse'})
+    if 'parse' not in callers:
+        raise Undecided('_parse is not called from parse directly (moved behind a helper?)')
     ctx.require(not extra and 'parse' in callers, '_parse is called only by parse and by itself', mod, '<module>', '_parse callers',
                 f'_parse is also called from {extra}: its StopIteration would escape there')
     g = CFG(parse)
@@ -1780,6 +2042,18 @@ def r4_escape(ctx: RuleCtx) -> None:
                     left = (norm(e_l.args[0]), not v)
         node = r.path.events[-1].node if r.path.events else parse
         if left is None:
+            streams = {norm(c.args[0]) for c in ast.walk(parse) if isinstance(c, ast.Call) and norm(c.func) == '_parse' and len(c.args) == 1 and isinstance(c.args[0], ast.Name)}
+            after = False
+            used = False
+            for ev in r.path.events:
+                if ev.node is None:
+                    continue
+                if after and streams & names_in(ev.node):
+                    used = True
+                if any(isinstance(c, ast.Call) and norm(c.func) == '_parse' for c in ast.walk(ev.node)):
+                    after = True
+            if used or not streams:
+                raise Undecided(f'parse: row `{r!r}` uses the token stream after _parse in a form this rule does not read')
             ctx.violation(mod, 'parse', f'leftover check :: {norm(node)}', f'row `{r!r}` ends by {r.outcome} without testing `next(<stream>, None) is None`: '
                           f'trailing tokens (`cfg(a))`, `cfg(a b)`) would be accepted', node)
             continue
@@ -1796,12 +2070,14 @@ def r4_escape(ctx: RuleCtx) -> None:
     ctx.floor('parse rows (reject / accept)', min(seen.values()), 1)
     # (4) every token read whose value is bound is checked (assertToken / identity test) before the parse goes on
     g2 = CFG(inner)
+    expect = _Expect(mod, inner)
+    TOK = expect.tok
     reads = []
     for node in g2.nodes:
         st = node.ast
         if node.kind == 'stmt' and isinstance(st, ast.Assign) and isinstance(st.value, ast.Call) and norm(st.value.func) == 'next':
             names = {n.id for t in st.targets for n in ast.walk(t) if isinstance(n, ast.Name)}
-            if 'token' in names:
+            if TOK in names:
                 reads.append(node)
     if len(reads) < 2:
         raise Undecided('_parse: token reads `(token, value), _ = next(ast)` not found')
@@ -1812,9 +2088,10 @@ def r4_escape(ctx: RuleCtx) -> None:
         if e is None:
             return False
         for c in walk_no_nested(e):
-            if isinstance(c, ast.Call) and isinstance(c.func, ast.Name) and c.func.id == 'assertToken':
+            ec = expect.call(c)
+            if ec is not None and ec[2] == TOK:
                 return True
-            if node.kind == 'test' and isinstance(c, ast.Compare) and isinstance(c.left, ast.Name) and c.left.id == 'token':
+            if node.kind == 'test' and isinstance(c, ast.Compare) and TOK in {n.id for n in ast.walk(c) if isinstance(n, ast.Name)}:
                 return True
         return False
     checks = [n for n in g2.nodes if is_check(n)]
@@ -1855,8 +2132,12 @@ def r4_escape(ctx: RuleCtx) -> None:
                     seen_n.add(p)
                     todo.append(p)
         return True
+    maybe_checks = [short(c) for c in ast.walk(inner) if isinstance(c, ast.Call) and expect.call(c) is None and not (isinstance(c.func, ast.Name) and c.func.id in ('next', inner.name))
+                    and any(isinstance(a, ast.Name) and a.id == TOK for a in list(c.args) + [k.value for k in c.keywords])]
     for rd in reads:
         esc = [p for p in progress if p.id != rd.id and g2.can_reach(rd, p, avoid=checks, no_exc=True)]
+        if esc and maybe_checks and not confirmed_by_lookahead(rd):
+            raise Undecided(f'_parse: `{maybe_checks[0]}` receives the token and may be the check this rule looks for')
         how = 'dispatch' if rd is first else 'delimiter'
         if esc and confirmed_by_lookahead(rd):
             esc, how = [], 'already identified by the look-ahead test'
@@ -1886,6 +2167,8 @@ def r4_escape(ctx: RuleCtx) -> None:
                     guarded = r.conds.get(Atom('truth', (pv,))) is True or r.conds.get(Atom('cmp', ('eq', pv, "''"))) is False
                     if not sliced or (mem == 'IDENTIFIER' and not guarded):
                         okp = False
+        if ny == 0:
+            raise Undecided(f'lexer ({part}): no IDENTIFIER / STRING token is yielded here directly (produced by a helper?)')
         ctx.require(okp and ny > 0, f'lexer ({part}): IDENTIFIER is yielded only under a truthy word, payloads are slices of the input (discharges the payload asserts of _parse)', mod, 'lexer',
                     f'token payloads ({part})', 'the lexer can yield an IDENTIFIER without text or a payload that is not a str: `assert value` in _parse would escape as AssertionError')
     asserts = [n for n in walk_no_nested(inner) if isinstance(n, ast.Assert)]
@@ -1905,6 +2188,10 @@ def r4_escape(ctx: RuleCtx) -> None:
         want = "_eval_cfg(parse(lexer(ARG1[4:-1])), ARG2)" if (w[sw] and w[ew]) else 'False'
         envw, _restw = propagate(stmts_of(rows[0]))
         gotw = ('return', norm(resolve(expr_of(rows[0].outcome[1]), envw))) if rows[0].outcome[0] == 'return' else rows[0].outcome
+        if gotw != ('return', want) and gotw[0] == 'return':
+            unknown = [norm(c.func) for c in ast.walk(expr_of(gotw[1])) if isinstance(c, ast.Call) and isinstance(c.func, ast.Name) and c.func.id not in ('_eval_cfg', 'parse', 'lexer')]
+            if unknown:
+                raise Undecided(f'eval_cfg: the result `{gotw[1]}` goes through {unknown}, which this rule does not follow')
         ctx.require(gotw == ('return', want), f'eval_cfg: startswith cfg( = {w[sw]}, endswith ) = {w[ew]} -> {want}', mod, 'eval_cfg', f'eval_cfg {w[sw]} {w[ew]}',
                     f'eval_cfg row `{rows[0]!r}`; expected return {want}', rows[0].path.events[-1].node if rows[0].path.events else ec)
 
